@@ -356,7 +356,17 @@ def dispatch():
     if (
         ARCHIVE
         and not dawgie.pl.schedule.promote.more()
-        and not sum([len(_jobs), len(_busy), len(_cluster), len(_cloud)])
+        and not sum(
+            [
+                len(_jobs),
+                len(_busy),
+                len(_cluster),
+                len(_cloud),
+                # cloud jobs the agency handed back are re-queued further down
+                len(_reject),
+                len(_repeat),
+            ]
+        )
     ):
         dawgie.context.fsm.archiving_trigger()
         pass
